@@ -30,7 +30,7 @@ REQUIRED = ["contract:CVR.make_phantoms", "accounting_checked:style", "accountin
             "pool_means_with_phantoms_checked", "pool_means_with_phantoms_checked:assorter_bound_not_1",
             "audit_wide_max_cards_differs_from_stratum_bound", "phantom_mvrs_for_sampled_phantom_cards_checked",
             "phantom_mvrs_for_sampled_phantom_cards_checked:another_prefix", "contest_with_card_bound_zero", "call_on_a_list_that_already_holds_phantoms:no_style",
-            "phantom_manual_record_built_by_from_raire", "phantom_mvrs_for_manifest_lookups_checked", "phantom_mvrs_for_manifest_lookups_checked:hart", "contests_dict_keyed_by_something_other_than_the_identifier", "worstcase_data_route_checked", "assorter:plurality", "assorter:supermajority", "assorter:irv"]
+            "phantom_manual_record_built_by_from_raire", "phantom_mvrs_for_manifest_lookups_checked", "phantom_mvrs_for_manifest_lookups_checked:hart", "contests_dict_keyed_by_something_other_than_the_identifier", "worstcase_data_route_checked", "phantom_mvrs_for_sampled_phantom_cards_checked:hart_two_phantom_batches", "assorter:plurality", "assorter:supermajority", "assorter:irv"]
 ASSUMPTIONS = ["card bounds >= number of records listing the contest; with style the input list holds no phantoms (the "
                "function is documented for 'the reported CVRs'); without style it may",
                "a phantom labelled pooled inside a pooled batch is scored with that batch's mean by design (C03 depends "
@@ -331,6 +331,23 @@ def run_case(es, rec):
     if len(hl[2]) != want_n or len({m.id for m in hl[2]}) != want_n or any((not m.phantom) or m.votes for m in hl[2]):
         rec.violation("c08.worstcase", "sampled_phantom_cards_do_not_get_phantom_manual_records:hart_manifest_lookup",
                       {"got": sorted(m.id for m in hl[2])[:8], "phantom_numbers_sampled": sorted(n for n in hnums if n >= total), "listed_cards": total})
+        return
+    # ... and the CVR-driven lookup of that vendor: a list holding two batches of phantom records (make_phantoms was run for
+    # two groups, prefixes phantom-1- and phantom-2-, so card numbers repeat across batches) and a few ordinary records;
+    # every sampled phantom record gets its own phantom manual record
+    hcv = [CVR(id=f"{hman['Batch Name'][0]}_{k_}", votes={"x": {"a": 1}}) for k_ in range(1, 4)]
+    hcv += [CVR(id=f"phantom-{g_}-{k_}", votes={}, phantom=True) for g_ in (1, 2) for k_ in range(1, 2 + extra)]
+    hp_ = list(range(len(hcv)))
+    prng2.shuffle(hp_)
+    ok, hc = rec.guard("c08.call:Hart.sample_from_cvrs", Hart.sample_from_cvrs, hcv, hman, np.array(hp_))
+    if not ok:
+        return
+    rec.count("phantom_mvrs_for_sampled_phantom_cards_checked:hart_two_phantom_batches")
+    want_h = sorted(c_.id for c_ in hcv if c_.phantom)
+    got_h = sorted(m.id for m in hc[3])
+    if got_h != want_h or any((not m.phantom) or m.votes for m in hc[3]):
+        rec.violation("c08.worstcase", "sampled_phantom_cards_do_not_get_phantom_manual_records:hart_cvr_lookup",
+                      {"got": got_h[:8], "want": want_h[:8]})
         return
     # pooled phantom CVRs enter the audit only through their batch's mean: each must contribute exactly 1/2 to the batch
     # total (reference: sum of reference assorter values of the batch's real CVRs + 1/2 per phantom)
